@@ -1,12 +1,22 @@
 #!/bin/sh
-# Offline setup: warms the Go build cache by compiling every driver against /repo, and checks TLC starts.
+# Offline setup: regenerates MANIFEST.json, warms the Go build cache by compiling the driver of every claimed
+# check against /repo, and checks that TLC starts.
 set -e
 cd "$(dirname "$0")/.."
 export GOFLAGS=-mod=mod GOPROXY=off GOSUMDB=off GOTOOLCHAIN=local
 cp /repo/go.sum harness/go.sum
-OUT=$(mktemp -d /tmp/verif-setup.XXXXXX)
-(cd harness && go build -tags "leveldb verif" -ldflags=-checklinkname=0 -o "$OUT/" ./cmd/...)
-rm -rf "$OUT"
-java -cp /opt/veriftools/tla/tla2tools.jar tlc2.TLC -h >/dev/null 2>&1 || true
 python3 tools/mkmanifest.py >/dev/null
+OUT=$(mktemp -d /tmp/verif-setup.XXXXXX)
+trap 'rm -rf "$OUT"' EXIT
+for d in $(python3 - <<'PY'
+import sys, os
+sys.path.insert(0, "tools")
+from registry import REGISTRY
+ver = set(l.split()[0] for l in open("tools/verified.txt") if l.strip() and not l.startswith("#"))
+print(" ".join(sorted(set(REGISTRY[p]["driver"] for p in REGISTRY if p in ver))))
+PY
+); do
+  (cd harness && go build -tags "leveldb verif" -ldflags=-checklinkname=0 -o "$OUT/$d" ./cmd/$d)
+done
+java -cp /opt/veriftools/tla/tla2tools.jar tlc2.TLC -h >/dev/null 2>&1 || true
 echo setup ok
